@@ -1032,15 +1032,21 @@ def run(tier, seed):
         "the order of equal numeric values in numpy's argsort is taken from numpy (model input, validated "
         "by valid_order)",
     ]
+    from harness.props import dimtype_legs   # legs of Model/DimValues.v + trusted base (workstream dimtype)
+    dimtype_legs.run(rep, PID, tier, seed)
     return rep.finish("proof", ob, trusted_base=core.TRUSTED_BASE_COMMON + [
         "Model/Scale.v, ScaleOrient.v (margins) and ScaleDisplay.v are tied to matrix/measure.py, "
         "stripe/measure.py and cubepart.py by the translator obligations C14_gen_* (harness/translate/x_scale.py, "
-        "Base/VecExp.v) and by this correspondence run; the display-order leg reads private attributes of _Slice"])
+        "Base/VecExp.v) and by this correspondence run; the display-order leg reads private attributes of _Slice",
+        dimtype_legs.trusted_base()])
 
 
 def replay(path):
     d = json.load(open(path))
     case = d["violation"]["case"]
+    if isinstance(case, dict) and case.get("dimtype_leg"):   # a case of harness/props/dimtype_legs.py
+        from harness.props import dimtype_legs
+        return dimtype_legs.replay_main(PID, case)
     rep = core.Report(PID, "quick", d.get("seed", 0))
     io = impl_run(case)
     term, aux = build_term(case, io)
